@@ -57,6 +57,18 @@ func genUMCases(r *Rng, n int, id string) []Case {
 				UCase{Cfg: cfg, Doc: &UDoc{Msg: "top", Kind: "k1", Causes: []*UDoc{doc}}})
 		}
 	}
+	// pointer keys whose element is not a scalar (tryConvertPointer): same Kind, not convertible
+	for _, fv := range [][2]string{{"ierr", "str"}, {"ierr", "f3"}, {"istr", "str"}, {"istr", "mapP"}, {"ierr", "nil"}} {
+		corpus = append(corpus, UCase{Cfg: UCfg{Defs: []UDef{{Kind: "k1", Keys: []int{44, 45}}}, Reg: []int{0}},
+			Doc: &UDoc{Msg: "m", Kind: "k1", Fields: map[string]int{fv[0]: umValueIndex(fv[1])}}},
+			UCase{Cfg: UCfg{Defs: []UDef{{Kind: "k1"}}, Reg: []int{0}, Custom: []int{44, 45}, Strict: true},
+				Doc: &UDoc{Msg: "m", Kind: "k1", Fields: map[string]int{fv[0]: umValueIndex(fv[1])}}})
+	}
+	for _, fv := range [][2]string{{"parr", "arr3"}, {"parr", "arr2"}, {"parr", "ptrArr2"}, {"pps", "nilPtrInt"}, {"pps", "nilPtrStr"}, {"pps", "ptrInt"}, {"arr3", "arr2"}, {"arr", "arr3"}} {
+		corpus = append(corpus, UCase{Cfg: UCfg{Defs: []UDef{{Kind: "k1", Keys: []int{42, 43, 35, 28}}}, Reg: []int{0}},
+			Doc: &UDoc{Msg: "m", Kind: "k1", Fields: map[string]int{fv[0]: umValueIndex(fv[1])}}})
+	}
+	corpus = append(corpus, umCorpusExtra()...)
 	for _, c := range corpus {
 		out = append(out, runUM(c))
 	}
@@ -75,6 +87,30 @@ func genUMCases(r *Rng, n int, id string) []Case {
 			c.Bytes = docBytes(r, c.Doc)
 		}
 		out = append(out, runUM(c))
+	}
+	return out
+}
+
+// umCorpusExtra: fixed cases shared by the unmarshaler checks (C10 C12 C13)
+func umCorpusExtra() []UCase {
+	var out []UCase
+	dflt := 1
+	for _, strict := range []bool{true, false} {
+		// a definition used as a cause (type *errdef.definition, message = its kind): restored only when
+		// that kind is registered - never replaced by the default definition
+		for _, msg := range []string{"k1", "nokind", "kd"} {
+			out = append(out, UCase{Cfg: UCfg{Defs: []UDef{{Kind: "k1"}, {Kind: "kd"}}, Reg: []int{0}, Default: &dflt, Strict: strict},
+				Doc: &UDoc{Msg: "m", Kind: "k1", Causes: []*UDoc{{Msg: msg, Type: "*errdef.definition"}, {Msg: msg, Type: ""}, {Msg: msg, Kind: "k9"}}}})
+		}
+		// two registered kinds share a field name with different keys: each node is decoded with the
+		// keys of ITS definition, whichever kind the unmarshaler saw first
+		for _, order := range [][2]string{{"k1", "k2"}, {"k2", "k1"}} {
+			val := map[string]string{"k1": "f3", "k2": "str"}
+			out = append(out, UCase{Cfg: UCfg{Defs: []UDef{{Kind: "k1", Keys: []int{2}}, {Kind: "k2", Keys: []int{30}}}, Reg: []int{0, 1}, Strict: strict},
+				Doc: &UDoc{Msg: "top", Kind: order[0], Fields: map[string]int{"n": umValueIndex(val[order[0]])},
+					Causes: []*UDoc{{Msg: "c1", Kind: order[1], Fields: map[string]int{"n": umValueIndex(val[order[1]])}},
+						{Msg: "c2", Kind: order[0], Fields: map[string]int{"n": umValueIndex(val[order[0]])}}}}})
+		}
 	}
 	return out
 }
